@@ -40,6 +40,8 @@ func init() { register("evmexec", evmDriver) }
 // 5 staking precompile  6 distribution precompile
 // 7 bonded pool  8 not-bonded pool  9 distribution module  10 evm module  11 fee collector
 // 12 ICS-20 precompile  13 escrow account of transfer/channel-0
+// 14,15 / 16,17 / 18,19 the addresses at which C1 / C2 / C3 create their first and second contract (CREATE address
+// of creator and account nonce 1, 2)
 const (
 	aO = iota
 	aP
@@ -55,12 +57,56 @@ const (
 	aFeeColl
 	aPI
 	aEscrow
-	evmNActors
+	aNew0 // first CREATE address
+	evmNActors = aNew0 + 6
 )
 
 var evmActorName = []string{"O", "P", "C1", "C2", "C3", "staking-precompile", "distribution-precompile",
 	"bonded-pool", "not-bonded-pool", "distribution-module", "evm-module", "fee-collector",
-	"ics20-precompile", "ibc-escrow"}
+	"ics20-precompile", "ibc-escrow", "C1-new1", "C1-new2", "C2-new1", "C2-new2", "C3-new1", "C3-new2"}
+
+// evmLib holds a copy of the script interpreter: constructors DELEGATECALL into it (never called directly, never dirty)
+var evmLib = common.HexToAddress("0x11B0000000000000000000000000000000000001")
+
+// createAddrs are the actors at which contract c creates (creator nonce 1, 2)
+func createAddrs(c int) []int {
+	if c < aC1 || c > aC3 {
+		panic("only C1..C3 create contracts")
+	}
+	return []int{aNew0 + 2*(c-aC1), aNew0 + 2*(c-aC1) + 1}
+}
+
+// actorOf maps an address back to its actor (-1 = unknown)
+func actorOf(a common.Address) int {
+	for i := range evmAddr {
+		if evmAddr[i] == a {
+			return i
+		}
+	}
+	return -1
+}
+
+// matchChild returns the trace frame of a call-like instruction (nil = never entered) and advances the child index
+func matchChild(e *evmEnv, self int, in evmInstr, ev *frameEv, child *int) *frameEv {
+	if ev == nil || *child >= len(ev.Children) {
+		return nil
+	}
+	c := ev.Children[*child]
+	if in.Op == "create" {
+		for _, t := range createAddrs(self) {
+			if c.To == evmAddr[t] {
+				*child++
+				return c
+			}
+		}
+		return nil
+	}
+	if c.To == callTarget(e, in) {
+		*child++
+		return c
+	}
+	return nil
+}
 
 var (
 	evmKeyO, _ = crypto.HexToECDSA("b71c71a67e1177ad4e901695e1b4b9ee17ae16c6668d313eac2f96dbcda3f291")
@@ -83,6 +129,11 @@ func init() {
 	evmAddr[aFeeColl] = common.BytesToAddress(authtypes.NewModuleAddress(authtypes.FeeCollectorName))
 	evmAddr[aPI] = common.HexToAddress("0x0000000000000000000000000000000000000802")
 	evmAddr[aEscrow] = common.BytesToAddress(transfertypes.GetEscrowAddress("transfer", "channel-0"))
+	for c := aC1; c <= aC3; c++ {
+		for i, a := range createAddrs(c) {
+			evmAddr[a] = crypto.CreateAddress(evmAddr[c], uint64(1+i))
+		}
+	}
 }
 
 // ---------------------------------------------------------------- input
@@ -94,13 +145,14 @@ type evmPCall struct {
 }
 
 type evmInstr struct {
-	Op     string     `json:"op"` // sstore log revert balance selfdestruct call pcall
+	Op     string     `json:"op"` // sstore log revert balance selfdestruct call pcall create
 	K      uint64     `json:"k,omitempty"`
 	V      uint64     `json:"v,omitempty"`
 	Addr   int        `json:"addr,omitempty"` // balance target / call target / selfdestruct beneficiary (actor)
 	Value  string     `json:"value,omitempty"`
 	Catch  bool       `json:"catch,omitempty"`
 	Record bool       `json:"record,omitempty"`
+	NoCode bool       `json:"nocode,omitempty"` // create: the constructor returns empty runtime code
 	Body   []evmInstr `json:"body,omitempty"`
 	P      *evmPCall  `json:"p,omitempty"`
 }
@@ -193,6 +245,9 @@ func (e *evmEnv) setup(s evmSetup) error {
 	k := e.App.EvmKeeper
 	codeHash := crypto.Keccak256Hash(scriptCode)
 	k.SetCode(e.Ctx, codeHash.Bytes(), scriptCode)
+	if err := k.SetAccount(e.Ctx, evmLib, statedb.Account{Nonce: 1, Balance: big.NewInt(0), CodeHash: codeHash.Bytes()}); err != nil {
+		return err
+	}
 	for a := 0; a <= aC3; a++ {
 		bal := bigOf(s.Bal[a])
 		dl := big.NewInt(0)
@@ -289,7 +344,8 @@ type evmObs struct {
 	Reward   []string   `json:"reward"`   // pending (truncated) rewards of actors 0..4
 	Storage  [][]string `json:"storage"`  // [contract, slot, value] non-zero
 	Grants   []string   `json:"grants"`   // remaining limit of O's delegate/undelegate grant per grantee "g:kind:limit"
-	Alive    []bool     `json:"alive"`    // the auth account of the contracts C1..C3 exists
+	Alive    []int      `json:"alive"`    // C1..C3 and the six CREATE addresses: 0 no auth account, 1 account without code, 2 with code
+	Nonce    []int      `json:"nonce"`    // CREATEs made by C1..C3 (account nonce - 1)
 }
 
 func (e *evmEnv) pendingReward(a int) (out *big.Int) {
@@ -361,8 +417,22 @@ func (e *evmEnv) observe(ok bool, errStr string, supply0 *big.Int, slots map[[2]
 			o.Storage = append(o.Storage, []string{fmt.Sprint(k[0]), fmt.Sprint(k[1]), new(big.Int).SetBytes(v.Bytes()).String()})
 		}
 	}
+	for _, a := range []int{aC1, aC2, aC3, aNew0, aNew0 + 1, aNew0 + 2, aNew0 + 3, aNew0 + 4, aNew0 + 5} {
+		st := 0
+		if acc := e.App.EvmKeeper.GetAccount(e.Ctx, evmAddr[a]); acc != nil && e.App.AccountKeeper.GetAccount(e.Ctx, accOf(a)) != nil {
+			st = 1
+			if acc.IsContract() {
+				st = 2
+			}
+		}
+		o.Alive = append(o.Alive, st)
+	}
 	for a := aC1; a <= aC3; a++ {
-		o.Alive = append(o.Alive, e.App.AccountKeeper.GetAccount(e.Ctx, accOf(a)) != nil)
+		n := int(e.App.EvmKeeper.GetNonce(e.Ctx, evmAddr[a]))
+		if n > 0 { // a deleted contract has no account: nonce 0
+			n--
+		}
+		o.Nonce = append(o.Nonce, n)
 	}
 	o.Grants = []string{}
 	for g := aP; g <= aC3; g++ {
@@ -450,6 +520,22 @@ func (e *evmEnv) encodeBody(self int, body []evmInstr, slots map[[2]uint64]bool)
 				panic("selfdestruct must be the last instruction of a body")
 			}
 			out = append(out, encSelfdestruct(evmAddr[in.Addr].Bytes())...)
+		case "create":
+			var flags byte
+			if in.Catch {
+				flags |= 1
+			}
+			if in.Record {
+				flags |= 2
+				slots[[2]uint64{uint64(self), 0xC0DE0000 + p}] = true
+			}
+			// the constructor body runs as the new contract, whichever of the creator's addresses it lands on:
+			// its storage slots are collected for both
+			var script []byte
+			for _, t := range createAddrs(self) {
+				script = e.encodeBody(t, in.Body, slots)
+			}
+			out = append(out, encCreate(flags, bigOf(in.Value), ctorInit(evmLib.Bytes(), script, !in.NoCode))...)
 		case "call", "pcall":
 			var flags byte
 			if in.Catch {
@@ -503,16 +589,22 @@ func (t *treeTracer) CaptureEnd(_ []byte, _ uint64, _ time.Duration, err error) 
 func (t *treeTracer) CaptureEnter(typ vm.OpCode, _ common.Address, to common.Address, _ []byte, _ uint64, _ *big.Int) {
 	f := &frameEv{To: to}
 	top := t.stack[len(t.stack)-1]
-	if typ != vm.SELFDESTRUCT { // the interpreter reports SELFDESTRUCT as a pseudo-frame: not a call
+	switch typ {
+	case vm.SELFDESTRUCT: // the interpreter reports SELFDESTRUCT as a pseudo-frame: not a call
+	case vm.DELEGATECALL: // the constructor stub running the script as the new contract: transparent
+		f = top
+	default:
 		top.Children = append(top.Children, f)
 	}
 	t.stack = append(t.stack, f)
 }
 func (t *treeTracer) CaptureExit(_ []byte, _ uint64, err error) {
-	if err != nil {
-		t.stack[len(t.stack)-1].Err = err.Error()
+	n := len(t.stack)
+	// a transparent (DELEGATECALL) entry is the same object as its parent: its error is the stub's business
+	if err != nil && !(n >= 2 && t.stack[n-1] == t.stack[n-2]) {
+		t.stack[n-1].Err = err.Error()
 	}
-	t.stack = t.stack[:len(t.stack)-1]
+	t.stack = t.stack[:n-1]
 }
 func (t *treeTracer) CaptureState(uint64, vm.OpCode, uint64, uint64, *vm.ScopeContext, []byte, int, error) {
 }
@@ -584,14 +676,22 @@ func eraseFailed(e *evmEnv, self int, body []evmInstr, ev *frameEv) []evmInstr {
 	for _, in := range body {
 		sz := uint64(len(e.encodeBody(self, []evmInstr{in}, map[[2]uint64]bool{})))
 		switch in.Op {
-		case "call", "pcall":
-			var ce *frameEv
-			if ev != nil && child < len(ev.Children) && ev.Children[child].To == callTarget(e, in) {
-				ce = ev.Children[child]
-				child++
-			}
+		case "call", "pcall", "create":
+			ce := matchChild(e, self, in, ev, &child)
 			failed := ce == nil || ce.Err != ""
-			if failed {
+			if failed && in.Op == "create" && ce != nil {
+				// a creation whose constructor failed still moves the creator's nonce (that happens before the
+				// frame): what "leaves no trace" leaves is the minimal failing creation
+				c := in
+				c.Value, c.Body, c.Record, c.Catch = "", []evmInstr{{Op: "revert"}}, false, true
+				out = append(out, c)
+				if in.Record {
+					out = append(out, evmInstr{Op: "sstore", K: 0xC0DE0000 + off, V: 1})
+				}
+				if !in.Catch {
+					out = append(out, evmInstr{Op: "revert"})
+				}
+			} else if failed {
 				if in.Record {
 					out = append(out, evmInstr{Op: "sstore", K: 0xC0DE0000 + off, V: 1})
 				}
@@ -602,6 +702,9 @@ func eraseFailed(e *evmEnv, self int, body []evmInstr, ev *frameEv) []evmInstr {
 				c := in
 				if in.Op == "call" {
 					c.Body = eraseFailed(e, in.Addr, in.Body, ce)
+				}
+				if in.Op == "create" {
+					c.Body = eraseFailed(e, actorOf(ce.To), in.Body, ce)
 				}
 				if in.Record {
 					// keep the record slot where the original program put it
@@ -646,6 +749,9 @@ func coqPCall(p *evmPCall) string {
 	panic("method")
 }
 
+// coqSelf is the contract whose body coqBody is printing (needed for the CREATE address lists)
+var coqSelf int
+
 func coqBody(body []evmInstr) string {
 	xs := []string{}
 	off := uint64(0)
@@ -671,7 +777,10 @@ func coqBody(body []evmInstr) string {
 			if in.Record {
 				rec = fmt.Sprintf("(Some %d%%Z)", 0xC0DE0000+off)
 			}
+			savedSelf := coqSelf
+			coqSelf = in.Addr
 			xs = append(xs, fmt.Sprintf("ICall %s %s %s %s %s", coqN(in.Addr), coqZ(bigOf(in.Value)), coqBool(in.Catch), rec, coqBody(in.Body)))
+			coqSelf = savedSelf
 			off += 98 + 0 // payload length added below
 			off += uint64(bodyLen(in))
 		case "pcall":
@@ -681,6 +790,20 @@ func coqBody(body []evmInstr) string {
 			}
 			xs = append(xs, fmt.Sprintf("IPre %s %s %s %s", coqPCall(in.P), coqZ(bigOf(in.Value)), coqBool(in.Catch), rec))
 			off += 98 + uint64(bodyLen(in))
+		case "create":
+			rec := "None"
+			if in.Record {
+				rec = fmt.Sprintf("(Some %d%%Z)", 0xC0DE0000+off)
+			}
+			ads := []string{}
+			for _, a := range createAddrs(coqSelf) {
+				ads = append(ads, coqN(a))
+			}
+			saved := coqSelf
+			coqSelf = createAddrs(saved)[0] // a created contract does not create again (generator), so its own list is never used
+			xs = append(xs, fmt.Sprintf("ICreate %s %s %s %s %s %s", coqList(ads), coqZ(bigOf(in.Value)), coqBool(in.Catch), rec, coqBool(!in.NoCode), coqBody(in.Body)))
+			coqSelf = saved
+			off += 66 + uint64(len(ctorInit(evmLib.Bytes(), evmBaseEnv().encodeBody(createAddrs(saved)[0], in.Body, map[[2]uint64]bool{}), !in.NoCode)))
 		}
 	}
 	return coqList(xs)
@@ -716,12 +839,15 @@ func (o evmObs) coq() string {
 	for _, s := range o.Storage {
 		st = append(st, fmt.Sprintf("(%s%%N, %s%%Z, %s%%Z)", s[0], s[1], s[2]))
 	}
-	al := []string{}
+	al, nc := []string{}, []string{}
 	for _, a := range o.Alive {
-		al = append(al, coqBool(a))
+		al = append(al, coqZ(big.NewInt(int64(a))))
 	}
-	return fmt.Sprintf("(mkeobs %s %s %s %s %s %s %s %s)", coqBool(o.OK), coqStrs(o.Bal), coqZ(bigOf(o.Supply)),
-		coqStrs(o.Deleg), coqStrs(o.Unbond), coqList(ws), coqList(st), coqList(al))
+	for _, a := range o.Nonce {
+		nc = append(nc, coqZ(big.NewInt(int64(a))))
+	}
+	return fmt.Sprintf("(mkeobs %s %s %s %s %s %s %s %s %s)", coqBool(o.OK), coqStrs(o.Bal), coqZ(bigOf(o.Supply)),
+		coqStrs(o.Deleg), coqStrs(o.Unbond), coqList(ws), coqList(st), coqList(al), coqList(nc))
 }
 
 func evmOrder() string {
@@ -775,6 +901,7 @@ func (in evmInput) coq(rewards []string, slots map[[2]uint64]bool) string {
 	if in.P != nil {
 		top = fmt.Sprintf("(TopPre %s)", coqPCall(in.P))
 	} else {
+		coqSelf = in.To
 		top = fmt.Sprintf("(TopCall %s %s)", coqN(in.To), coqBody(in.Body))
 	}
 	return fmt.Sprintf("(mkecase %s %s %s %s %s %s %s %s %s "+coqBool(in.Setup.WdOff)+")", coqStrs(in.Setup.Bal), coqStrs(in.Setup.Deleg), coqStrs(rewards),
@@ -963,7 +1090,10 @@ func evmDiff(want, got evmObs, withOK bool) string {
 		d = append(d, fmt.Sprintf("storage %v vs %v", want.Storage, got.Storage))
 	}
 	if fmt.Sprint(want.Alive) != fmt.Sprint(got.Alive) {
-		d = append(d, fmt.Sprintf("contract accounts exist %v vs %v", want.Alive, got.Alive))
+		d = append(d, fmt.Sprintf("contract accounts (0 none, 1 without code, 2 with code) %v vs %v", want.Alive, got.Alive))
+	}
+	if fmt.Sprint(want.Nonce) != fmt.Sprint(got.Nonce) {
+		d = append(d, fmt.Sprintf("creations counted by the contracts' nonces %v vs %v", want.Nonce, got.Nonce))
 	}
 	if fmt.Sprint(want.Grants) != fmt.Sprint(got.Grants) {
 		d = append(d, fmt.Sprintf("grants %v vs %v", want.Grants, got.Grants))
@@ -988,13 +1118,16 @@ func evmBalanceOracle(e *evmEnv, in evmInput, pre, obs evmObs, root *frameEv) (s
 	for a := range bal {
 		bal[a] = bigOf(pre.Bal[a])
 	}
-	deleg := make([]*big.Int, 5)
-	pend := make([]*big.Int, 5)
-	wd := make([]int, 5)
-	for a := 0; a < 5; a++ {
-		deleg[a] = bigOf(pre.Deleg[a])
-		pend[a] = bigOf(pre.Reward[a])
-		wd[a] = pre.Withdraw[a]
+	deleg := make([]*big.Int, evmNActors)
+	pend := make([]*big.Int, evmNActors)
+	wd := make([]int, evmNActors)
+	for a := 0; a < evmNActors; a++ {
+		deleg[a], pend[a], wd[a] = big.NewInt(0), big.NewInt(0), a // created contracts: no delegation, default withdraw address
+		if a < 5 {
+			deleg[a] = bigOf(pre.Deleg[a])
+			pend[a] = bigOf(pre.Reward[a])
+			wd[a] = pre.Withdraw[a]
+		}
 	}
 	move := func(from, to int, v *big.Int) {
 		bal[from].Sub(bal[from], v)
@@ -1040,15 +1173,17 @@ func evmBalanceOracle(e *evmEnv, in evmInput, pre, obs evmObs, root *frameEv) (s
 				dead[self] = true
 				continue
 			}
-			if ins.Op != "call" && ins.Op != "pcall" {
+			if ins.Op != "call" && ins.Op != "pcall" && ins.Op != "create" {
 				continue
 			}
-			var ce *frameEv
-			if ev != nil && child < len(ev.Children) && ev.Children[child].To == callTarget(e, ins) {
-				ce = ev.Children[child]
-				child++
-			}
+			ce := matchChild(e, self, ins, ev, &child)
 			if ce == nil || ce.Err != "" {
+				continue
+			}
+			if ins.Op == "create" {
+				t := actorOf(ce.To)
+				move(self, t, bigOf(ins.Value))
+				walk(t, ins.Body, ce)
 				continue
 			}
 			if ins.Op == "pcall" {
@@ -1111,7 +1246,7 @@ func evmSites(in evmInput, root *frameEv) []pcallSite {
 			switch ins.Op {
 			case "sstore":
 				dirty = true
-			case "call", "pcall":
+			case "call", "pcall", "create":
 				var ce *frameEv
 				if ev != nil && child < len(ev.Children) {
 					ce = ev.Children[child]
@@ -1120,6 +1255,12 @@ func evmSites(in evmInput, root *frameEv) []pcallSite {
 				f := failed || ce == nil || ce.Err != ""
 				if ins.Op == "pcall" {
 					sites = append(sites, pcallSite{P: ins.P, Caller: self, Value: ins.Value, FailedAbove: f, CallerDirty: dirty})
+				} else if ins.Op == "create" {
+					t := createAddrs(self)[0]
+					if ce != nil && actorOf(ce.To) >= 0 {
+						t = actorOf(ce.To)
+					}
+					walk(t, ins.Body, ce, f, true)
 				} else if ins.Addr >= aC1 && ins.Addr <= aC3 {
 					walk(ins.Addr, ins.Body, ce, f, bigOf(ins.Value).Sign() > 0)
 				}
@@ -1161,6 +1302,15 @@ func evmFeatures(in evmInput, pre evmObs, root *frameEv) []string {
 				if ins.Addr >= aC1 && ins.Addr <= aC3 {
 					sdw(ins.Addr, ins.Body)
 				}
+			case "create":
+				f = append(f, "create")
+				if bigOf(ins.Value).Sign() > 0 {
+					f = append(f, "create:with-value")
+				}
+				if len(ins.Body) > 0 && ins.Body[len(ins.Body)-1].Op == "revert" {
+					f = append(f, "create:constructor-reverts")
+				}
+				sdw(createAddrs(self)[0], ins.Body)
 			}
 		}
 	}
@@ -1208,6 +1358,9 @@ func evmClass(in evmInput, pre evmObs, root *frameEv, prop string) string {
 	k5 := func(s pcallSite) bool { return bigOf(s.Value).Sign() > 0 && s.Caller != aO && txOK }
 	k3 := func(s pcallSite) bool { return s.FailedAbove && txOK && s.Caller != aO }
 	pays := func(s pcallSite) bool {
+		if s.P.Who >= len(pre.Deleg) { // a freshly created contract has no delegation
+			return false
+		}
 		hasDel := bigOf(pre.Deleg[s.P.Who]).Sign() > 0
 		pending := hasDel && bigOf(pre.Reward[s.P.Who]).Sign() > 0
 		return pending && (s.P.Method == "delegate" || s.P.Method == "undelegate" || s.P.Method == "withdraw" || s.P.Method == "claim")
@@ -1244,6 +1397,19 @@ func evmClass(in evmInput, pre evmObs, root *frameEv, prop string) string {
 
 // ---------------------------------------------------------------- generator
 func evmGenP(r *Rng, caller int, s evmSetup) *evmPCall {
+	// created contracts (actors beyond C3) have no entry in the setup lists
+	balOf := func(a int) *big.Int {
+		if a < len(s.Bal) {
+			return bigOf(s.Bal[a])
+		}
+		return big.NewInt(100)
+	}
+	delOf := func(a int) *big.Int {
+		if a < len(s.Deleg) {
+			return bigOf(s.Deleg[a])
+		}
+		return big.NewInt(0)
+	}
 	who := caller
 	switch r.Intn(10) {
 	case 0, 1, 2, 3:
@@ -1252,13 +1418,13 @@ func evmGenP(r *Rng, caller int, s evmSetup) *evmPCall {
 		who = r.Intn(5)
 	}
 	m := []string{"delegate", "delegate", "undelegate", "withdraw", "withdraw", "setwithdraw", "claim", "ibctransfer", "ibctransfer"}[r.Intn(9)]
-	if (m == "withdraw" || m == "undelegate") && bigOf(s.Deleg[who]).Sign() == 0 && r.Chance(85) {
+	if (m == "withdraw" || m == "undelegate") && delOf(who).Sign() == 0 && r.Chance(85) {
 		m = "delegate"
 	}
 	p := &evmPCall{Method: m, Who: who}
 	switch m {
 	case "delegate", "ibctransfer":
-		b := bigOf(s.Bal[who])
+		b := balOf(who)
 		switch r.Intn(8) {
 		case 0:
 			p.Amt = new(big.Int).Add(b, big.NewInt(1)).String() // above the balance
@@ -1268,7 +1434,7 @@ func evmGenP(r *Rng, caller int, s evmSetup) *evmPCall {
 			p.Amt = new(big.Int).Add(r.Below(new(big.Int).Add(new(big.Int).Quo(b, big.NewInt(4)), big.NewInt(1))), big.NewInt(1)).String()
 		}
 	case "undelegate":
-		d := bigOf(s.Deleg[who])
+		d := delOf(who)
 		switch r.Intn(8) {
 		case 0:
 			p.Amt = new(big.Int).Add(d, big.NewInt(1)).String()
@@ -1291,6 +1457,9 @@ func evmGenP(r *Rng, caller int, s evmSetup) *evmPCall {
 
 // evmSdPct is the chance (percent) that a generated body ends in SELFDESTRUCT; evmGen raises it for a fifth of the cases
 var evmSdPct = 4
+
+// evmCrPct is the chance (percent) per instruction slot of a CREATE; evmGen raises it for a seventh of the cases
+var evmCrPct = 2
 
 // evmRecv is the value the frame being generated has just received ("" = none): a quarter of the value-carrying
 // calls forward exactly that amount, so that the frame's balance returns to what it was when it was loaded
@@ -1315,6 +1484,22 @@ func evmGenBody0(r *Rng, self int, depth int, s evmSetup) []evmInstr {
 	n := 1 + r.Intn(4)
 	body := []evmInstr{}
 	for i := 0; i < n; i++ {
+		if self >= aC1 && self <= aC3 && depth < 3 && r.Chance(evmCrPct) {
+			// CREATE: the constructor runs a script as the new contract; it may fail, return no code, self-destruct
+			ins := evmInstr{Op: "create", Catch: r.Chance(75), Record: r.Chance(50), NoCode: r.Chance(20)}
+			if r.Chance(60) {
+				ins.Value = fmt.Sprint(1 + r.Intn(200))
+			}
+			saved := evmRecv
+			evmRecv = ins.Value
+			ins.Body = evmGenBody(r, createAddrs(self)[0], depth+1, s)
+			evmRecv = saved
+			if r.Chance(25) && (len(ins.Body) == 0 || (ins.Body[len(ins.Body)-1].Op != "revert" && ins.Body[len(ins.Body)-1].Op != "selfdestruct")) {
+				ins.Body = append(ins.Body, evmInstr{Op: "revert"})
+			}
+			body = append(body, ins)
+			continue
+		}
 		k := r.Intn(100)
 		switch {
 		case k < 22:
@@ -1328,6 +1513,12 @@ func evmGenBody0(r *Rng, self int, depth int, s evmSetup) []evmInstr {
 			if evmSdPct > 10 && r.Chance(50) {
 				t = []int{aC1, aC2, self}[r.Intn(3)] // few contracts, called repeatedly: life after self-destruct
 			}
+			if evmCrPct > 10 && r.Chance(35) {
+				t = aNew0 + r.Intn(6) // a CREATE address: funded before the creation, or called after it
+			}
+			if t >= evmNActors || t < 0 { // self may be a created contract
+				t = aC1
+			}
 			ins := evmInstr{Op: "call", Addr: t, Catch: r.Chance(75), Record: r.Chance(40)}
 			if r.Chance(45) {
 				ins.Value = fmt.Sprint(1 + r.Intn(50))
@@ -1338,7 +1529,9 @@ func evmGenBody0(r *Rng, self int, depth int, s evmSetup) []evmInstr {
 			if t >= aC1 {
 				saved := evmRecv
 				evmRecv = ins.Value
-				ins.Body = evmGenBody(r, t, depth+1, s)
+				if t <= aC3 {
+					ins.Body = evmGenBody(r, t, depth+1, s)
+				}
 				evmRecv = saved
 			}
 			body = append(body, ins)
@@ -1404,14 +1597,16 @@ func evmGen(r *Rng) evmInput {
 		}
 	} else {
 		in.To = aC1 + r.Intn(3)
-		evmSdPct = 4
+		evmSdPct, evmCrPct = 4, 2
 		if r.Chance(20) {
 			evmSdPct = 35
+		} else if r.Chance(18) {
+			evmCrPct = 22
 		}
 		evmRecv = in.Value
 		in.Body = evmGenBody(r, in.To, 1, s)
 		evmRecv = ""
-		evmSdPct = 4
+		evmSdPct, evmCrPct = 4, 2
 	}
 	return in
 }
